@@ -1010,12 +1010,29 @@ class Exec:
             raise Unsupported(f"iteration over symbolic {type(it).__name__}")
         if hasattr(type(it), '_pyvc_iter'):
             return it._pyvc_iter(self)
+        if hasattr(it, "__next__") and self._is_module_level(it):
+            # a one-shot iterator stored in a module or class: consuming it changes the behaviour of every later call in
+            # the process, and the executor cannot restore it between paths
+            raise Unsupported("iteration consumes a one-shot iterator kept in a module or class attribute "
+                              f"({type(it).__name__}): behaviour depends on the call history of the process")
         try:
             return list(it)
         except SymLeak:
             raise
         except Exception as e:
             raise PyRaise(e)
+
+    def _is_module_level(self, obj):
+        for modname, mod in self.world.modules.items():
+            if not modname.startswith("goodwe"):
+                continue
+            for v in vars(mod).values():
+                if v is obj:
+                    return True
+                if isinstance(v, type) and getattr(v, "__module__", "").startswith("goodwe"):
+                    if any(x is obj for x in vars(v).values()):
+                        return True
+        return False
 
     def e_Await(self, node, fr):
         from . import aio
